@@ -451,11 +451,15 @@ class SignalTimePDF(
             # interval.
             on = self._livetime.is_on(times)
 
-            pd_src = pd[src_m]
-            pd_src[on] = (
-                self._time_flux_profile(t=times[on]) / self._S
-            )
-            pd[src_m] = pd_src
+            # If the time flux profile does not overlap with any detector
+            # on-time, i.e. S = 0, no signal can be observed and the
+            # probability density is zero for all events (and not 0/0 = nan).
+            if self._S > 0:
+                pd_src = pd[src_m]
+                pd_src[on] = (
+                    self._time_flux_profile(t=times[on]) / self._S
+                )
+                pd[src_m] = pd_src
 
         return pd
 
